@@ -1,7 +1,18 @@
 /* C16: second translation unit - reaches the private ZSTD_DCtx fields the correspondence observes
- * (stream stage, attached dictionary, maxWindowSize).  Compiled against the CURRENT /repo sources. */
+ * (stream stage, attached dictionary, maxWindowSize; round 2: dictUses, which DDict, the DDict hash set, last parsed dictID).
+ * Compiled against the CURRENT /repo sources. */
 #include "decompress/zstd_decompress.c"
 
 int c16_d_stage(const ZSTD_DCtx* d) { return d->streamStage != zdss_init; }
 int c16_d_hasdict(const ZSTD_DCtx* d) { return d->ddict != NULL; }
 unsigned long long c16_d_maxwin(const ZSTD_DCtx* d) { return (unsigned long long)d->maxWindowSize; }
+
+size_t c16_d_sizeof(void) { return sizeof(ZSTD_DCtx); }
+int c16_d_dictuses(const ZSTD_DCtx* d) { return d->dictUses == ZSTD_dont_use ? 0 : d->dictUses == ZSTD_use_once ? 1 : 2; }
+int c16_d_ddict_is_local(const ZSTD_DCtx* d) { return d->ddict != NULL && d->ddict == d->ddictLocal; }
+const void* c16_d_ddict(const ZSTD_DCtx* d) { return d->ddict; }
+const void* c16_d_ddict_content(const ZSTD_DCtx* d) { return d->ddict ? ZSTD_DDict_dictContent(d->ddict) : NULL; }
+size_t c16_d_ddict_size(const ZSTD_DCtx* d) { return d->ddict ? ZSTD_DDict_dictSize(d->ddict) : 0; }
+int c16_d_set_allocated(const ZSTD_DCtx* d) { return d->ddictSet != NULL; }
+int c16_d_set_has(const ZSTD_DCtx* d, unsigned dictID) { return d->ddictSet != NULL && ZSTD_DDictHashSet_getDDict(d->ddictSet, dictID) != NULL; }
+unsigned c16_d_lastid(const ZSTD_DCtx* d) { return d->fParams.dictID; }
